@@ -78,6 +78,9 @@ impl MT296 {
             });
         }
 
+        // Verify all content is consumed
+        crate::parser::utils::verify_parser_complete(&parser)?;
+
         Ok(MT296 {
             field_20,
             field_21,
